@@ -46,7 +46,6 @@ FALLBACKS = [None, False, True]
 QUICK_PAIRS = [(18, 18), (18, 19), (18, 25), (19, 20), (19, 21), (20, 20), (20, 21), (20, 25),
                (21, 25), (20, 19), (21, 20), (25, 18), (23, 21)]
 ALL_PAIRS = [(s, t) for s in range(18, 26) for t in range(18, 26)]
-BOUND = {"quick": 2, "thorough": 3}
 
 
 # ------------------------------------------------------------------------------------------------------------
@@ -90,23 +89,41 @@ def _mk_driver(pairs):
 
 
 def plan(tier, seed):
-    pairs = QUICK_PAIRS if tier == "quick" else ALL_PAIRS
-    st = explore.Stats()
+    # quick: the 13 adapter-relevant pairs at bound 2.  thorough: the same pairs at bound 3 and the other 51
+    # pairs of 18..25 x 18..25 at bound 2 (their conversions are compositions of the former).
+    if tier == "quick":
+        runs = [(QUICK_PAIRS, 2)]
+    else:
+        runs = [(QUICK_PAIRS, 3), ([p for p in ALL_PAIRS if p not in QUICK_PAIRS], 2)]
     groups = {}
     order = []
-    for _, leaf in explore.explore(_mk_driver(pairs), bound=BOUND[tier], stats=st):
-        k = json.dumps([leaf["spec"], leaf["t"]], sort_keys=True)
-        g = groups.get(k)
-        if g is None:
-            g = groups[k] = {"spec": leaf["spec"], "t": leaf["t"], "subs": []}
-            order.append(k)
-        g["subs"].append(leaf["sub"])
+    tot = dict(states=0, transitions=0, leaves=0, pruned=0)
+    dims = {}
+    capped = False
+    per_run = []
+    for pairs, bound in runs:
+        st = explore.Stats()
+        for _, leaf in explore.explore(_mk_driver(pairs), bound=bound, stats=st):
+            k = json.dumps([leaf["spec"], leaf["t"]], sort_keys=True)
+            g = groups.get(k)
+            if g is None:
+                g = groups[k] = {"spec": leaf["spec"], "t": leaf["t"], "subs": []}
+                order.append(k)
+            g["subs"].append(leaf["sub"])
+        for k in tot:
+            tot[k] += getattr(st, k)
+        capped = capped or st.capped
+        for k, v in st.dim_hist.items():
+            dims.setdefault(k, set()).update(v)
+        per_run.append({"s_t_pairs": len(pairs), "bound": bound, "leaves": st.leaves, "states": st.states})
     items = [groups[k] for k in order]
-    d = st.as_dict()
-    d["exhaustive"] = not st.capped
-    d["dimensions"] = {k: len(v) for k, v in st.dim_hist.items()}
+    d = dict(tot)
+    d["capped"] = capped
+    d["bound"] = min(b for _, b in runs)
+    d["exhaustive"] = not capped
+    d["dimensions"] = {k: len(v) for k, v in dims.items()}
     d["model_target_groups"] = len(items)
-    d["s_t_pairs"] = len(pairs)
+    d["enumeration_runs"] = per_run
     return items, d
 
 
@@ -545,7 +562,8 @@ def execute(item):
         raised = r["exc"] is not None
         decl = _declared(after)
         fdecl = sorted({str(_declared(f)) for f in after.functions})
-        nkeys.append(f"{mkey}|{t}|{entry}|{api}|{fb}")
+        if not unchanged:
+            nkeys.append(f"{mkey}|{t}|{entry}|{api}|{fb}")
         if any("Skipping version conversion" in m for m in r["log"]):
             bump("adapter_error_logged")
         if any("C API" in m and "Failed" in m for m in r["log"]):
